@@ -425,7 +425,7 @@ Proof.
       * assert (Hne : cur T <> nf).
         { intros E. pose proof (Hfib nf) as [H1 _ _ _ _]. cbn [cnt] in H1.
           rewrite cnt_opt, <- E, !Nat.eqb_refl in H1. destruct (Nat.eqb_spec (cur T) 0); lia. }
-        unfold lok; cbn. rewrite upd_same, upd_other by auto. rewrite Hts1. auto.
+        unfold lok; cbn. rewrite upd_same, Hts1. rewrite upd_other by auto. auto.
   - (* PL1 *)
     unfold lb_continue. rewrite Hn. rewrite lb_scan_1thread.
     match goal with |- context [lb_ret ?s1 _ _ _] => set (s1' := s1) end.
